@@ -550,6 +550,13 @@ func (p *Prog) callKey(c *ssa.Call, result int, env *KeyEnv, depth int, busy map
 	return unknownKey("call " + d.String())
 }
 
+// ResolvePart returns the value of the function containing the store operation that a key part was built from
+// (parameters of key constructors are followed to the actuals of the calls the key was evaluated through).
+func ResolvePart(pt Part) ssa.Value {
+	v, _ := resolveParam(pt.Val, pt.Env)
+	return v
+}
+
 // resolveParam follows a parameter (through conversions) to the actual bound in the key environment.
 func resolveParam(v ssa.Value, env *KeyEnv) (ssa.Value, *KeyEnv) {
 	for i := 0; i < 8; i++ {
